@@ -11,11 +11,12 @@ import concurrent.futures as cf
 import copy
 import json
 import os
+import re
 import sys
 import threading
 import time
 sys.path.insert(0, '/verif/tools')
-from vf import core, tlc
+from vf import core, tla, tlc
 
 c = core.Check('C10', 'model_checking')
 c.setup()
@@ -82,6 +83,15 @@ def tree_behaviours(nodes, edges, inits):
     return out
 
 
+def last_rows(out):
+    """rows of the last state of a TLC counterexample (multi-line values)"""
+    m = re.findall(r'^/\\ rows = (.*?)(?=^/\\ |^\s*$)', out, flags=re.M | re.S)
+    try:
+        return tla.parse_value(m[-1]) if m else None
+    except tla.ParseError:
+        return None
+
+
 def harness_args(mode, consts):
     return ['-mode', mode, '-k1', ','.join(K1 if consts.get('Grouped') == 'TRUE' else ['a']), '-k2', ','.join(K2 if consts.get('Grouped') == 'TRUE' else ['c']),
             '-maxrep', str(consts['MaxRep']), '-intmax', str(INTMAX), '-intmin', str(-INTMAX)]
@@ -94,22 +104,25 @@ if c.replay:
     else:
         f = c.write_behaviours('replay', [obj['behaviour']])
         res = c.run_harness(binp, obj['args'] + ['-in', f], env={'VERIF_SEED': str(obj['seed'])})
+    seen = set()
     for v in res['violations']:
-        c.report(v['signature'], v['detail'], {k: obj[k] for k in obj if k in ('mode', 'behaviour', 'args', 'n', 'case')})
+        if v['signature'] not in seen:
+            seen.add(v['signature'])
+            c.report(v['signature'], v['detail'], {k: obj[k] for k in obj if k in ('mode', 'behaviour', 'args', 'n', 'case', 'harness')})
     c.cov.update(states=1, transitions=1, traces_validated_against_impl=0, samples=[obj.get('behaviour', obj.get('case'))])
     c.finish()
 
 # ---- 1+2. design: TLC exhaustive, three state graphs (dumped), and spec -> code: every state becomes an implementation case ----
 if c.quick:
     fam = {
-        'scalar': ('agg', dict(Vals='-3..3', Shards='{0, 1, 2}', MaxRows=4), SCALAR_INV),
+        'scalar': ('agg', dict(Vals='-2..2', Shards='{0, 1, 2}', MaxRows=4), SCALAR_INV),
         'group': ('agg', dict(Vals='{-2, 0, 3}', Shards='{0, 1}', K1=tla_strs(K1), K2=tla_strs(K2), MaxRows=3, Grouped='TRUE', MaxN=2), AGG_INV),
         'top': ('top', dict(Family='"top"', TopVals='-3..3', MaxItems=4, MaxN=3), ['TopNLaw']),
     }
 else:
     fam = {
         'scalar': ('agg', dict(Vals='-3..3', Shards='{0, 1, 2}', MaxRows=5), SCALAR_INV),
-        'group': ('agg', dict(Vals='{-2, 0, 3}', Shards='{0, 1}', K1=tla_strs(K1), K2=tla_strs(K2), MaxRows=4, Grouped='TRUE', MaxN=3), AGG_INV),
+        'group': ('agg', dict(Vals='{-3, -1, 0, 2}', Shards='{0, 1}', K1=tla_strs(K1), K2=tla_strs(K2), MaxRows=4, Grouped='TRUE', MaxN=3), AGG_INV),
         'top': ('top', dict(Family='"top"', TopVals='-3..3', MaxItems=5, MaxN=3), ['TopNLaw']),
     }
 
@@ -181,7 +194,7 @@ for name, r, d, b, res, err in fam_out:
 for q, r in quirk_out:
     if not r.violated:
         c.inconclusive('spec self-check: deviation %s does not violate any invariant (error=%s)' % (q, r.error))
-    quirks[q] = dict(violates=r.violated, rows=(r.trace[-1].get('rows') if r.trace else None))
+    quirks[q] = dict(violates=r.violated, rows=last_rows(r.output))
 c.log('spec self-check: each named deviation violates an invariant: %s' % {k: v['violates'] for k, v in quirks.items()})
 if xres.get('inconclusive'):
     c.inconclusive('; '.join(xres['inconclusive'][:3]))
